@@ -71,7 +71,9 @@ class HTTPConnection(Mapping[str, Any], MoreInfoFromHeaderMixin):
         The full URL of this request.
         """
         try:
-            return URL(environ=self._environ)
+            url = URL(environ=self._environ)
+            url.port  # urlsplit() validates the port only when it is read
+            return url
         except ValueError:
             # urlsplit() rejects e.g. "Host: [" (unbalanced IPv6 bracket), and the
             # path / query string may not be UTF-8: a malformed request, not a 500
